@@ -235,6 +235,37 @@ def prov_rdkit_attrs(repo, tier="quick"):
                           reason="carried over from the RDKit atom")) if ok else
          obs.append(ob_fail(oid, fi, found[key][0].ast if key in found else None, construct="%s = %s" % (key, show(found[key][1]) if key in found else "<missing>"),
                             instance="from-rdkit:" + key, reason="node attribute '%s' is not taken from atom.%s()" % (key, meth))))
+    # positions: whenever the molecule has a conformer, each node gets (x, y, z) of the conformer position of its atom
+    def xyz_of(v):
+        """np.array([p.x, p.y, p.z]) -> p (canonical term) or None"""
+        c = is_call(v, "numpy.array", "numpy.asarray")
+        inner = c[0][0] if c and c[0] else v
+        if inner[0] in ("list", "tuple") and len(inner[1]) == 3:
+            comps = inner[1]
+            if all(x[0] == "attr" for x in comps) and [x[2] for x in comps] == ["x", "y", "z"] and len({x[1] for x in comps}) == 1:
+                return comps[0][1]
+        return None
+    for fq, target in (("rdkit:rdkit_to_networkx", "props"), ("rdkit:embed_3d_via_rdkit", "node")):
+        f2 = repo.function(fq)
+        l2, c2 = f2.flow, f2.cfg
+        stores = []
+        for n in c2.nodes:
+            if n.kind == "stmt" and isinstance(n.ast, ast.Assign) and isinstance(n.ast.targets[0], ast.Subscript) and \
+                    isinstance(n.ast.targets[0].slice, ast.Constant) and n.ast.targets[0].slice.value == "position":
+                stores.append(n)
+        if not stores:
+            obs.append(ob_fail(oid, f2, construct="no store of 'position' in %s" % f2.name, instance="position:" + f2.name,
+                               reason="coordinates of the conformer never reach the graph"))
+            continue
+        for n in stores:
+            v = l2.canon(n.ast.value, n.id)
+            src = xyz_of(v)
+            m = method_call(src) if src is not None else None
+            okp = bool(m and m[1] == "GetAtomPosition")
+            (obs.append(ob_ok(oid, f2, n.ast, construct="position = array([p.x, p.y, p.z]) with p = conf.GetAtomPosition(...)", instance="position:" + f2.name,
+                              reason="the three components of the conformer position, in x, y, z order")) if okp else
+             obs.append(ob_fail(oid, f2, n.ast, construct="position = %s" % show(v)[:100], instance="position:" + f2.name,
+                                reason="the stored position is not (x, y, z) of the atom's conformer position")))
     # add_node(atom.GetIdx(), **props) with props the dict filled above; bonds: order = bond type as double, int unless 1.5
     eadds = [(c, n) for c, n in fl.calls() if isinstance(c.func, ast.Attribute) and c.func.attr == "add_edge"]
     need(eadds, "anchor vanished: no add_edge in rdkit_to_networkx", fi)
@@ -508,7 +539,7 @@ def sent_order_zero(repo, tier="quick"):
 MUTATING_METHODS = {"append", "extend", "insert", "remove", "pop", "clear", "update", "setdefault", "add", "discard", "popitem", "sort", "reverse"}
 
 
-def det_shared_state(repo, roots, oid="DET.shared-state", tier="quick"):
+def det_shared_state(repo, roots, oid="DET.shared-state", tier="quick", floor=8):
     """No function reachable from `roots` keeps state that outlives a call or an instance:
     class-level mutable attributes that are mutated, module-level containers that are mutated,
     `global` rebinding, memoising decorators."""
@@ -575,8 +606,8 @@ def det_shared_state(repo, roots, oid="DET.shared-state", tier="quick"):
         if not problems:
             obs.append(ob_ok(oid, fi, construct="no state outliving the call", instance=fi.qualname,
                              reason="no class-level or module-level container is mutated, no global is rebound, nothing is memoised"))
-    if n_funcs < 8:
-        raise AnalysisError("shared-state scan reached only %d functions (floor 8)" % n_funcs)
+    if n_funcs < floor:
+        raise AnalysisError("shared-state scan reached only %d functions (floor %d)" % (n_funcs, floor))
     return obs
 
 
